@@ -400,7 +400,7 @@ class Model:
         """Function for printing pins of model"""
         print(f"Pins of model {self} (id={id(self)})")
         for pin, n in self.pin_dic.items():
-            print(f"{pin:5s}:{n:5}")
+            print(f"{pin.name:5s}:{n:5}")
         print("")
 
     def pin_mapping(self, pin_mapping: Dict[Pin, Pin]):
